@@ -964,8 +964,8 @@ def gen_cases(rng, tier):
     cases.append(mk(src='import "x.libsonnet"', S=True, jpath=[], files=jfiles, expect_rc=1))
     # F. stack limit reached or not
     deep = 'local f(n) = if n == 0 then 0 else 1 + f(n - 1); f(%d)'
-    for n, s in [(100, 30), (100, 2000), (10, None), (300, 100)]:
-        cases.append(mk(src=deep % n, s=s, t=rng.choice([None, 0, 5]), o=rng.choice([None, 'exists'])))
+    for n, s, rc in [(100, 30, 1), (100, 2000, 0), (10, None, 0), (300, 100, 1)]:
+        cases.append(mk(src=deep % n, s=s, t=rng.choice([None, 0, 5]), o=rng.choice([None, 'exists']), expect_rc=rc))
     return cases
 
 
